@@ -48,5 +48,7 @@ Compress(alg, state, block) == state
 DigestOfSegs(alg, segs) == ""      \* streaming digest of pattern segments <<b, off, lenHi, lenLo>>
 JdkDigest(alg, msg) == msg         \* second implementation, used only by PrimSelfTest
 Murmur3x64128(msg, seed8) == msg   \* MurmurHash3_x64_128, seed as 8 LE bytes, result 16 bytes as stored
+MhDigestOfSegs(alg, segs) == << >>   \* streaming MultiHash!MhDigest over pattern segments (long streams)
+Murmur3OfSegs(segs, seed8) == << >>   \* streaming MurmurHash3_x64_128 over pattern segments
 Rol64(x8, n) == x8                 \* rotate a 64-bit value (8 LE bytes) left by n
 =============================================================================
